@@ -333,21 +333,34 @@ def start_sweep():  # noqa: ANN201
                                         child["return_handle"] = True
 
                                     sib = {"tid": 2, "how": "start_soon", "body": [["cp", 9]]}
-                                    root = [["group", 1, [sib], [
-                                        ["scope", "s1", False, None, [
-                                            ["group", 2, [], [["cp", 0]]],
-                                        ]],
-                                    ]]]  # fmt: skip
-                                    # the caller of start() is the root task inside s1
-                                    root = [["group", 1, [sib], [
-                                        ["scope", "s1", False, None, [["startcall", 1, child], ["cp", 2]]],
-                                        ["cp", 1],
-                                    ]]]  # fmt: skip
                                     agents = []
                                     if target != "none":
                                         agents = [{"at": at, "place": "after", "do": [
                                             "cancel", "s1" if target == "caller" else "g1"]}]  # fmt: skip
 
+                                    # the caller of start() is the root task inside s1
+                                    root = [["group", 1, [sib], [
+                                        ["scope", "s1", False, None, [["startcall", 1, child], ["cp", 2]]],
+                                        ["cp", 1],
+                                    ]]]  # fmt: skip
+                                    yield _p(cfg, root, agents, "fam:start_sweep")
+                                    if rh or cleanup == "boom":
+                                        continue
+
+                                    # ... inside a SHIELDED scope: a cancelled group does not
+                                    # reach the caller, the child's own exception must
+                                    root = [["group", 1, [sib], [
+                                        ["scope", "s1", True, None, [["startcall", 1, child], ["cp", 2]]],
+                                        ["cp", 1],
+                                    ]]]  # fmt: skip
+                                    yield _p(cfg, root, agents, "fam:start_sweep")
+                                    # ... or a task OUTSIDE the group (member of an outer one)
+                                    starter = {"tid": 7, "how": "start_soon", "body": [
+                                        ["cp", 1],
+                                        ["scope", "s1", False, None, [["startcall", 1, child], ["cp", 2]]],
+                                    ]}  # fmt: skip
+                                    root = [["group", 9, [starter], [
+                                        ["group", 1, [sib], [["cp", 7]]], ["cp", 1]]]]  # fmt: skip
                                     yield _p(cfg, root, agents, "fam:start_sweep")
 
 
@@ -395,3 +408,15 @@ def deadline_nests():  # noqa: ANN201
                             else:
                                 yield _p(cfg, [["catch_then", body, [["cp", 1]]], ["sleep", 0.5]],
                                          agents, "fam:deadline_nests")  # fmt: skip
+
+
+def start_sweep_uncancelled_caller():  # noqa: ANN201
+    """the slice of start_sweep in which the caller of start() is not reached by the group's
+    cancellation (shielded, or a task outside the group) and the group gets cancelled: the
+    block must end quietly / with exactly the real failures                          -> C02"""
+    for p in start_sweep():
+        root = p["root"]
+        foreign = root[0][1] == 9
+        shielded = not foreign and root[0][3][0][2] is True
+        if (foreign or shielded) and p["agents"] and p["agents"][0]["do"][1] == "g1":
+            yield p
